@@ -5,6 +5,7 @@ package main
 import (
 	"encoding/json"
 	"fmt"
+	"reflect"
 	"sort"
 	"strings"
 
@@ -408,11 +409,41 @@ func observePlain(pm *openfgav1.AuthorizationModel, labels []string) (o plainObs
 			}
 		}
 	}
-	o.cycles = fmt.Sprint(g.GetCycles())
+	o.cycles = cycleFlags(g.GetCycles())
 	return o
 }
 
 var _ gonumgraph.Node
+
+// cycleFlags reads the two flags of CycleInformation by field name through
+// reflection (they are unexported and have no accessor): "{compile runtime}",
+// or "" when the struct no longer has two recognisable bool fields (then the
+// cycle clauses cannot be observed and are skipped rather than guessed).
+func cycleFlags(ci any) string {
+	v := reflect.ValueOf(ci)
+	if v.Kind() != reflect.Struct {
+		return ""
+	}
+	var compile, runtime *bool
+	for i := 0; i < v.NumField(); i++ {
+		f := v.Type().Field(i)
+		if v.Field(i).Kind() != reflect.Bool {
+			continue
+		}
+		b := v.Field(i).Bool()
+		n := strings.ToLower(f.Name)
+		switch {
+		case strings.Contains(n, "compile"):
+			compile = &b
+		case strings.Contains(n, "runtime"):
+			runtime = &b
+		}
+	}
+	if compile == nil || runtime == nil {
+		return ""
+	}
+	return fmt.Sprintf("{%v %v}", *compile, *runtime)
+}
 
 // ---------------------------------------------------------------------------
 
@@ -544,10 +575,12 @@ func (c *plainCtx) check(cfg simrt.Config) ([]mismatch, simrt.Stats, string) {
 	}
 	// cycles
 	cc, acyclic := c.ref.cycles()
-	if cc && !strings.HasPrefix(o.cycles, "{true") {
+	if o.cycles == "" {
+		// not observable any more: skip
+	} else if cc && !strings.HasPrefix(o.cycles, "{true") {
 		add("plain.cycles", "a cycle of pure computed usersets is not reported as compile-time cycle: %s", o.cycles)
 	}
-	if acyclic && o.cycles != "{false false}" {
+	if o.cycles != "" && acyclic && o.cycles != "{false false}" {
 		add("plain.cycles", "acyclic model reports cycles: %s", o.cycles)
 	}
 	if o.cycles != c.canon.cycles {
